@@ -334,4 +334,4 @@ replace (
 
 require github.com/comdex-official/comdex v0.0.0
 
-replace github.com/comdex-official/comdex => /var/tmp/seedeval-s05-C06-withdraw-quo-last-share
+replace github.com/comdex-official/comdex => /repo
